@@ -488,6 +488,8 @@ package iavl
 //@   ensures [first] err == nil ==> ndb.firstVersion == ite(old(ndb.firstVersion) <= toVersion, toVersion + 1, old(ndb.firstVersion))
 //@   ensures [refused] old(ndb.latestVersion) <= toVersion ==> ndb.firstVersion == old(ndb.firstVersion) && ndb.latestVersion == old(ndb.latestVersion)
 //@   loop 2 invariant ndb.firstVersion == version && version >= first && (version == first || version <= toVersion + 1) && first == old(ndb.firstVersion)
+//@   loop 1 invariant [no-held-version-passed-over] forall(w, imp(visited(w), !(w >= first && w <= toVersion && ndb.versionReaders[w] != 0)))
+//@   callsite newRootkeyCache [no-live-reader-in-the-range-to-delete] forall(w, imp(w >= first && w <= toVersion, ndb.versionReaders[w] == 0))
 //@   callsite fmt.Errorf [refused-before-any-effect] ndb.firstVersion == old(ndb.firstVersion) && ndb.latestVersion == old(ndb.latestVersion)
 //@   callsite nodeDB).deleteVersion [only-requested-never-latest] arg1 >= old(ndb.firstVersion) && arg1 <= toVersion && arg1 < old(ndb.latestVersion) && arg1 == ndb.firstVersion
 //@   modifies *
@@ -1224,6 +1226,8 @@ package iavl
 //@   macro plain = old(ndb.latestVersion) > 0 && old(ndb.latestVersion) < 9223372036854775807 && old(ndb.legacyLatestVersion) == 0 - 1 && fromVersion > 0
 //@   ensures [above-latest] plain && old(ndb.latestVersion) < fromVersion ==> err == nil && ndb.latestVersion == old(ndb.latestVersion)
 //@   callsite nodeDB).getLatestVersion [latest-discovered-not-assumed] arg0 == ndb
+//@   loop 1 invariant [no-held-version-passed-over] forall(w, imp(visited(w), !(w >= fromVersion && ndb.versionReaders[w] != 0)))
+//@   callsite nodeDB).getLegacyLatestVersion [no-live-reader-at-or-above-the-target] forall(w, imp(w >= fromVersion, ndb.versionReaders[w] == 0))
 //@   callsite FastPrefixFormatter).KeyInt64@1 [range-from] plain ==> arg1 == fromVersion
 //@   callsite FastPrefixFormatter).KeyInt64@2 [range-to] plain ==> arg1 == old(ndb.latestVersion) + 1
 //@   callsite nodeDB).resetLatestVersion [new-latest] plain ==> arg1 == fromVersion - 1
